@@ -351,8 +351,8 @@ func c18anomaly(c *Ctx) {
 			reach := an.Explore(fn, nil, facts, nil)
 			bad := ""
 			for _, ret := range reach.Returns() {
-				for _, l := range an.Sources(ret.Results[0], nil) {
-					if l == ssa.Value(src) {
+				for _, v := range reach.Values(ret.Results[0]) {
+					if v == ssa.Value(src) {
 						bad = c.InstrPos(ret)
 					}
 				}
